@@ -1,6 +1,7 @@
 package main
 
 import (
+	"bytes"
 	"compress/flate"
 	"encoding/json"
 	"hash"
@@ -27,6 +28,30 @@ func (a *attachment) Read(p []byte) (int, error) {
 
 func attach(w io.Writer, r io.Reader) *attachment {
 	return &attachment{r, w}
+}
+
+// spool copies src to dst. When dst cannot take a piece, it returns how much
+// dst holds, the piece that was read from src and is not in dst, and the
+// error; an error of src comes back without a piece.
+func spool(dst io.Writer, src io.Reader) (int64, []byte, error) {
+	buf := make([]byte, 32*1024)
+	var written int64
+	for {
+		n, rerr := src.Read(buf)
+		if n > 0 {
+			m, werr := dst.Write(buf[:n])
+			written += int64(m)
+			if werr != nil {
+				return written, buf[m:n], werr
+			}
+		}
+		if rerr == io.EOF {
+			return written, nil, nil
+		}
+		if rerr != nil {
+			return written, nil, rerr
+		}
+	}
 }
 
 type tuple [2]interface{}
@@ -69,6 +94,10 @@ type ioDelegate struct {
 	outfile *os.File
 	cache   *cache.File
 	tmpin   bool
+	// When standard input could only be spooled in part, it is read from
+	// here: the spooled part, what was in hand, then the rest of the input.
+	in    io.Reader
+	spool *os.File
 }
 
 func newIODelegate(inpath, outpath string) (*ioDelegate, error) {
@@ -91,6 +120,9 @@ func newIODelegate(inpath, outpath string) (*ioDelegate, error) {
 }
 
 func (d *ioDelegate) Read(p []byte) (int, error) {
+	if d.in != nil {
+		return d.in.Read(p)
+	}
 	return d.infile.Read(p)
 }
 
@@ -127,9 +159,20 @@ func (d *ioDelegate) TryCache(h hash.Hash, data []byte) (bool, error) {
 			return false, nil
 		}
 
-		if _, err := io.Copy(f, d.infile); err != nil {
-			d.Close()
-			return false, err
+		if n, piece, err := spool(f, d.infile); err != nil {
+			if piece == nil {
+				// the input itself could not be read
+				f.Close()
+				os.Remove(f.Name())
+				d.Close()
+				return false, err
+			}
+			// There is no room for a copy of the input: go on without the
+			// cache, reading what was spooled, the piece in hand, and then
+			// the rest of the input.
+			d.in = io.MultiReader(io.NewSectionReader(f, 0, n), bytes.NewReader(piece), d.infile)
+			d.spool = f
+			return false, nil
 		}
 
 		if _, err := f.Seek(0, io.SeekStart); err != nil {
@@ -193,6 +236,11 @@ func (d *ioDelegate) TryCache(h hash.Hash, data []byte) (bool, error) {
 func (d *ioDelegate) Close() error {
 	if d.tmpin {
 		defer os.Remove(d.infile.Name())
+	}
+	if d.spool != nil {
+		d.spool.Close()
+		os.Remove(d.spool.Name())
+		d.spool = nil
 	}
 
 	defer d.infile.Close()
